@@ -1,7 +1,7 @@
 // Code -> spec for C11: drives the real Ripser engine with random inputs far beyond the bounded model and records
 // input + everything the callbacks received as NDJSON events for Trace_Ripser.tla (which recomputes the diagram
 // with the algorithmic operators of RipsPersistence.tla).
-//   usage: ripser_record out.ndjson seed nevents dense|sparse|boundary|deep max_simplices
+//   usage: ripser_record out.ndjson seed nevents dense|sparse|boundary|deep|wide max_simplices
 // dense : 5..9 points, tie-rich integer dissimilarities (uniform, with zeros, metrics of points on a line or of the
 //         corners of a 3x4 rectangle - these are also fed as Euclidean point clouds -, shortest-path metrics of small
 //         graphs, multipartite dissimilarities whose short edges span joins of discrete sets = wedges of spheres, and
@@ -13,6 +13,7 @@
 //         dim_max chosen so that bits_per_vertex*(dim_max+2)+bits(p-1) falls in each range of the dispatcher (<=64,
 //         <=128, beyond), primes 2, 3, 5, 65521.  The simplex encoding each run used is recorded (formula of help1).
 // boundary: 127..131 vertices, a tiny graph, dim_max 120..n-2 and beyond (the limits of dimension_t = int8_t).
+// wide : see random_wide (4096 / 65536 vertices, small complex with large vertex numbers; with oracle).
 // deep : see random_deep (encoded simplex indices beyond 64 bits; no oracle, the forms must agree).
 // An input whose Rips complex (dimension <= dim_max+1, after truncation) has more than max_simplices simplices gets a
 // smaller dim_max, so that TLC recomputes every event in well under a second.
@@ -206,9 +207,9 @@ static Input random_boundary(Rng& g) {
   return in;
 }
 
-// simplices whose encoded index needs more than 64 bits: a dense random graph on the 13..17 highest of 512 (or 64)
+// simplices whose encoded index needs more than 64 bits: a dense random graph on the 16..24 highest of 512 (or 64)
 // vertices, dim_max 9..13 (bit field of 128 bits, combinatorial number system), mostly odd primes.  Such a complex has
-// thousands of simplices: no oracle (Trace_Ripser.tla then only checks that the forms agree and the structural clauses).
+// up to 60 000 simplices: no oracle (Trace_Ripser.tla then only checks that the forms agree and the structural clauses).
 static Input random_deep(Rng& g, long limit) {
   Input in;
   in.dense = false;
@@ -216,22 +217,63 @@ static Input random_deep(Rng& g, long limit) {
   const int n = in.n;
   for (int attempt = 0; attempt < 30; ++attempt) {
     in.edges.clear();
-    const int k = rnd(g, 13, 17), prob = rnd(g, 82, 94), wmax = rnd(g, 1, 2);
+    const int k = rnd(g, 16, 24), prob = rnd(g, 78, 91), wmax = rnd(g, 1, 2);
     for (int b = n - k; b < n; ++b)
       for (int a = n - k; a < b; ++a)
         if (rnd(g, 0, 99) < prob) in.edges.push_back(Edge{a, b, rnd(g, 1, wmax)});
     in.dmax = n == 64 ? 12 : pick<int>(g, {9, 9, 13});
     in.p = pick<unsigned>(g, {3, 3, 5, 65521, 2});
     in.t = -1;
-    if (count_cliques(in, -1, in.dmax + 1, 20000) <= 20000) break;
+    if (count_cliques(in, -1, in.dmax + 1, 60000) <= 60000) break;
   }
   (void)limit;
   return in;
 }
 
+// many vertices, few of them used: 4096 or 65536 vertices (12 / 16 bits each) of which 7..11, with large numbers, carry
+// a dense random graph, a cross-polytope or a Moore space; the encoded index of a simplex with 5-6 vertices then needs
+// more than 64 bits although the complex is small enough for the oracle.  dim_max 3..7: bit field of 128 bits or
+// combinatorial number system.
+static Input random_wide(Rng& g, long limit) {
+  Input in;
+  in.dense = false;
+  in.n = pick<int>(g, {65536, 65536, 262144, 262144, 4096});
+  const int n = in.n;
+  std::set<int> chosen;
+  if (rnd(g, 0, 2)) chosen.insert(n - 1);
+  // styles 4, 5: a cross-polytope / Moore space on short edges plus an apex joined to everything by longer edges (the
+  // classes die late, through columns that really have to be reduced: sums of coefficients on large simplices)
+  const int style = rnd(g, 0, 5);
+  const int base = style == 3 || style == 5 ? 17 : style == 2 || style == 4 ? 2 * rnd(g, 3, 5) : rnd(g, 7, 11);
+  const int k = base + (style >= 4 ? rnd(g, 1, 2) : 0);
+  while (static_cast<int>(chosen.size()) < k) chosen.insert(rnd(g, n / 2, n - 1));
+  std::vector<int> vs(chosen.begin(), chosen.end());
+  std::shuffle(vs.begin(), vs.end(), g);
+  const int wmax = pick<int>(g, {1, 2, 3});
+  std::map<std::pair<int, int>, std::int64_t> E;
+  auto add = [&](int a, int b) { if (a != b) E[{std::min(a, b), std::max(a, b)}] = rnd(g, 1, wmax); };
+  if (style == 3 || style == 5) { for (auto& e : moore_edges(3)) add(vs[e.first], vs[e.second]); }
+  else if (style == 2 || style == 4) { for (int i = 0; i < base; ++i) for (int j = 0; j < i; ++j) if (i / 2 != j / 2) add(vs[i], vs[j]); }
+  else { const int prob = rnd(g, 60, 95); for (int i = 0; i < k; ++i) for (int j = 0; j < i; ++j) if (rnd(g, 0, 99) < prob) add(vs[i], vs[j]); }
+  for (int a = base; a < k; ++a)   // the apexes
+    for (int i = 0; i < a; ++i) E[{std::min(vs[a], vs[i]), std::max(vs[a], vs[i])}] = wmax + rnd(g, 1, 2);
+  for (auto& kv : E) in.edges.push_back(Edge{kv.first.first, kv.first.second, kv.second});
+  std::shuffle(in.edges.begin(), in.edges.end(), g);   // so that dropping the last ones is unbiased
+  in.t = -1;
+  for (int attempt = 0; attempt < 50; ++attempt) {
+    in.dmax = n == 4096 ? pick<int>(g, {3, 5, 8, 9}) : n == 65536 ? pick<int>(g, {3, 4, 5, 6, 7}) : pick<int>(g, {2, 3, 4, 5});
+    in.p = pick<unsigned>(g, {3, 3, 5, 2, 65521});
+    if (encoding_feasible(dispatched_encoding(n, in.dmax, in.p), n, in.dmax, in.p)) break;
+    in.dmax = 3; in.p = 3;
+  }
+  while (count_cliques(in, -1, in.dmax + 1, limit) > limit && !in.edges.empty()) in.edges.pop_back();
+  std::sort(in.edges.begin(), in.edges.end(), [](const Edge& x, const Edge& y) { return std::tie(x.b, x.a) < std::tie(y.b, y.a); });
+  return in;
+}
+
 static void record_event(Rng& g, vf::Trace& tr, int kind, long limit) {
-  Input in = kind == 0 ? random_dense(g, limit) : kind == 1 ? random_sparse(g, limit) : kind == 2 ? random_boundary(g) : random_deep(g, limit);
-  isolate_all() = kind == 3;
+  Input in = kind == 0 ? random_dense(g, limit) : kind == 1 ? random_sparse(g, limit) : kind == 2 ? random_boundary(g) : kind == 3 ? random_deep(g, limit) : random_wide(g, limit);
+  isolate_all() = kind >= 3;   // deep, wide: these inputs crash the fallback 128-bit integer build (findings/C11.json)
   bj::object e = jinput(in);
   e["op"] = "ripser";
   e["value"] = build_name();
@@ -263,11 +305,11 @@ int main(int argc, char** argv) {
 #else
 int record_main(int argc, char** argv) {
 #endif
-  if (argc < 6) { std::cerr << "usage: ripser_record out.ndjson seed nevents dense|sparse|boundary|deep max_simplices" << std::endl; return 2; }
+  if (argc < 6) { std::cerr << "usage: ripser_record out.ndjson seed nevents dense|sparse|boundary|deep|wide max_simplices" << std::endl; return 2; }
   Rng g(std::strtoull(argv[2], nullptr, 10));
   const long n = std::atol(argv[3]);
   const std::string ks = argv[4];
-  const int kind = ks == "dense" ? 0 : ks == "sparse" ? 1 : ks == "boundary" ? 2 : 3;
+  const int kind = ks == "dense" ? 0 : ks == "sparse" ? 1 : ks == "boundary" ? 2 : ks == "deep" ? 3 : 4;
   const long limit = std::atol(argv[5]);
   vf::Trace tr(argv[1]);
   vf::crash_ctx().out = tr.f;
